@@ -578,7 +578,7 @@ def check(chk):
     C.log("injected test binary ready after %.0fs" % (time.time() - chk.t0))
     t0 = time.time()
     # the end-to-end program is built while the in-process harness runs
-    n_e2e = 1500 if thorough else 60
+    n_e2e = 1500 if thorough else 30
     leaves = [i for i, d in enumerate(recs) if d["ph"] == 1]
     # deterministic representatives (so that a known class is met whatever the seed) + a seeded sample
     I8, FNT = {"k": "basic", "n": "int8"}, {"k": "func"}
